@@ -40,7 +40,7 @@ ASSUMPTIONS = [
     "reads the model predicts unbound are rendered (log i (try v (except [NameError] \"U\"))) so that a program keeps running; the model iterates to a fixed rendering",
     "unspecified: assignment to a comprehension's iteration variable inside its body",
     "unspecified: defn/defclass/import inside a comprehension body (whether such a definition is 'visible outside the form' is not documented)",
-    "unspecified: defn/defclass/import of the except variable inside its handler, or of a name bound by two nested lets",
+    "unspecified: defn/defclass/import of the except variable inside its handler, or of a name bound by two nested let / except bindings of one Python scope",
     "unspecified: an except variable used by a closure after its handler has ended (Python deletes it; Hy's docs say only 'like except ETYPE as VAR')",
     "pinned by tests/native_tests/let.hy rather than api.rst: with/for targets assign the let binding; after defn/defclass/import of a let-bound name the name means the Python-scope variable for the rest of the let; a name assigned in a nested function's own scope is local there even when let-bound outside",
 ]
@@ -211,25 +211,29 @@ def _shape(forest):
     return ",".join(out)
 
 
-def _tag(forest, lets=frozenset(), inmatch=frozenset()):
-    """Structural class for narrow known-finding matchers."""
+def _tag(forest, lets=frozenset(), inmatch=frozenset(), depth=0):
+    """Structural class for narrow known-finding matchers.
+    lets: names whose innermost binding in the current Python scope is a let / except binding;
+    depth: number of enclosing comprehension forms in the current Python scope."""
     for t in forest:
         op = t[0]
         if op in S.DEFINERS and t[1] in inmatch:
             return "definition-of-let-bound-capture-name-inside-match-body"
+        if op in ("setv", "aug", "setx", "forv", "with", "match") and depth >= 2 and t[1] in lets:
+            return "assignment-to-let-bound-name-inside-nested-comprehensions"
         r = None
         if op in ("clo", "fnp"):
-            r = _tag(t[3], frozenset(), frozenset())
+            r = _tag(t[3])
         elif op == "let":
-            r = _tag(t[3], lets | {t[1]}, inmatch)
+            r = _tag(t[3], lets | {t[1]}, inmatch, depth)
         elif op == "match":
-            r = _tag(t[2], lets, inmatch | ({t[1]} & lets))
+            r = _tag(t[2], lets, inmatch | ({t[1]} & lets), depth)
         elif op == "lfor":
-            r = _tag(t[2], lets - {t[1]}, inmatch - {t[1]})
+            r = _tag(t[2], lets - {t[1]}, inmatch - {t[1]}, depth + 1)
         elif op == "exc":
-            r = _tag(t[2], lets - {t[1]}, inmatch - {t[1]})
+            r = _tag(t[2], lets | {t[1]}, inmatch - {t[1]}, depth)
         elif op == "with":
-            r = _tag(t[2], lets, inmatch)
+            r = _tag(t[2], lets, inmatch, depth)
         if r and r != "other":
             return r
     return "other"
